@@ -25,17 +25,53 @@ def _map(v, f):
     return f(v)
 
 
-def fold(node: ast.AST) -> Any:
+def fold(node: ast.AST, names: Any = None) -> Any:
+    """closed-literal folding; `names` optionally maps local names to the (closed) expressions they are bound to"""
+    if names is not None:
+        return _fold_env(node, names, set())
+    return _fold(node)
+
+
+def _fold_env(node: ast.AST, names, busy) -> Any:
+    # substitute names, then fold; matrix products and `% 2` are supported here (small GF(2) tables built from generators)
+    if isinstance(node, ast.Name):
+        if node.id in names and node.id not in busy:
+            return _fold_env(names[node.id], names, busy | {node.id})
+        raise NotConstant(f"name {node.id}")
+    if isinstance(node, ast.BinOp) and isinstance(node.op, ast.MatMult):
+        a, b = _fold_env(node.left, names, busy), _fold_env(node.right, names, busy)
+        if _is_mat(a) and _is_mat(b) and len(a[0]) == len(b):
+            return [[sum(a[i][k] * b[k][j] for k in range(len(b))) for j in range(len(b[0]))] for i in range(len(a))]
+        raise NotConstant("matmul of non-matrices")
+    if isinstance(node, ast.BinOp) and isinstance(node.op, ast.Mod):
+        a, b = _fold_env(node.left, names, busy), _fold_env(node.right, names, busy)
+        if not isinstance(b, list):
+            return _map(a, lambda x: x % b)
+        raise NotConstant("mod by array")
+    if isinstance(node, ast.Call) and call_attr(node) == "astype" and isinstance(node.func, ast.Attribute):
+        return _fold_env(node.func.value, names, busy)
+    if isinstance(node, ast.Call) and call_attr(node) in ("array", "asarray") and node.args:
+        return _fold_env(node.args[0], names, busy)
+    if isinstance(node, ast.Call) and call_attr(node) in ("eye", "identity") and node.args:
+        n = _fold_env(node.args[0], names, busy)
+        if isinstance(n, int):
+            return [[1 if i == j else 0 for j in range(n)] for i in range(n)]
+    if isinstance(node, (ast.List, ast.Tuple)):
+        return [_fold_env(e, names, busy) for e in node.elts]
+    return _fold(node)
+
+
+def _fold(node: ast.AST) -> Any:
     if isinstance(node, ast.Constant) and isinstance(node.value, (int, float, complex, str, bool)):
         return node.value
     if isinstance(node, (ast.List, ast.Tuple)):
-        return [fold(e) for e in node.elts]
+        return [_fold(e) for e in node.elts]
     if isinstance(node, ast.UnaryOp) and isinstance(node.op, ast.USub):
-        return _map(fold(node.operand), lambda x: -x)
+        return _map(_fold(node.operand), lambda x: -x)
     if isinstance(node, ast.UnaryOp) and isinstance(node.op, ast.UAdd):
-        return fold(node.operand)
+        return _fold(node.operand)
     if isinstance(node, ast.BinOp):
-        a, b = fold(node.left), fold(node.right)
+        a, b = _fold(node.left), _fold(node.right)
         if isinstance(node.op, ast.Div):
             if isinstance(b, list):
                 raise NotConstant("division by array")
@@ -57,19 +93,19 @@ def fold(node: ast.AST) -> Any:
         head = d.split(".")[0]
         if head in ("np", "numpy") or "." not in d:
             if name in ("array", "asarray") and node.args:
-                return fold(node.args[0])
+                return _fold(node.args[0])
             if name == "sqrt" and len(node.args) == 1:
-                v = fold(node.args[0])
+                v = _fold(node.args[0])
                 if isinstance(v, list):
                     raise NotConstant("sqrt of array")
                 return v ** 0.5
             if name == "diag" and len(node.args) == 1:
-                v = fold(node.args[0])
+                v = _fold(node.args[0])
                 if _is_vec(v):
                     n = len(v)
                     return [[v[i] if i == j else 0 for j in range(n)] for i in range(n)]
             if name in ("eye", "identity") and len(node.args) == 1:
-                n = fold(node.args[0])
+                n = _fold(node.args[0])
                 if isinstance(n, int):
                     return [[1.0 if i == j else 0.0 for j in range(n)] for i in range(n)]
         raise NotConstant(f"call {d}")
